@@ -17,7 +17,7 @@ import (
 	"verifharness/m3"
 )
 
-const rule = "meshes: icospheres, tori, subdivided boxes, marching cubes of 1-2 overlapping tori and of random CSG trees (genus 0-2+), height-field patches and spherical caps (open discs), 1-3 components side by side, hash-jittered vertices, random affine placement, optionally thinned to a subset of the faces; <= 600 faces in the quick tier (5000 thorough). Charts: MeshToPlaneGraphs / Limited with random size and area limits, SplitPlaneGraph with the distance heuristic or a linear decision function. Floater: every disc x {Circle, PNorm(p), Square, harness-made affine images of a circle} x {uniform, inverse chord length^r, shape preserving, harness-made random positive weights}, optionally through StretchMinimizingParameterization. Atlas: BuildAutomaticUVMap at 64..1024 and PackMeshUVMaps of per-chart Floater maps into a random rectangle with a border; MapFn queries are barycentric points of random faces (interior, near and on edges, vertices, just outside chart boundary edges). Non-trivial: >= 2 charts (charts, atlas, mapfn), >= 2 faces (split), >= 1 interior vertex (floater). Distinct: hash of the JSON case."
+const rule = "meshes: icospheres, tori, subdivided boxes, marching cubes of 1-2 overlapping tori and of random CSG trees (genus 0-2+), height-field patches (also flat, with in-plane jitter), spherical caps and triangle fans (open discs), 1-3 components side by side, hash-jittered vertices, random affine placement, optionally thinned to a subset of the faces; <= 600 faces in the quick tier (5000 thorough). Charts: MeshToPlaneGraphs / Limited with random size and area limits, SplitPlaneGraph with the distance heuristic or a linear decision function. Floater: every disc x {Circle, PNorm(p), Square, harness-made affine images of a circle, the disc's own x,y for flat/planar-boundary fans and grid patches} x {uniform, inverse chord length^r, shape preserving, harness-made random positive weights}, optionally through StretchMinimizingParameterization. Atlas: BuildAutomaticUVMap at 64..1024 and PackMeshUVMaps of per-chart Floater maps into a random rectangle with a border; MapFn queries are barycentric points of random faces (interior, near and on edges, vertices, just outside chart boundary edges). Non-trivial: >= 2 charts (charts, atlas, mapfn), >= 2 faces (split), >= 1 interior vertex (floater). Distinct: hash of the JSON case."
 
 // ---------------------------------------------------------------------------
 // shared plumbing
@@ -184,6 +184,9 @@ const (
 	tagStretch = "stretch-boundary-centres"
 	// Floater97ShapePreservingWeights clamps the cosine of a wedge angle to [0, 1]: angles above 90 degrees count as 90
 	tagObtuse = "shape-weights-obtuse-wedge"
+	// BuildAutomaticUVMap packs charts into a quad tree balanced by area, not by count; with charts of very
+	// different areas a cell becomes smaller than twice the border (1/resolution) and ToBounds panics
+	tagCells = "atlas-cell-smaller-than-border"
 )
 
 // guarded runs f and reports whether the library's linear solver gave up with its NaN panic.
@@ -504,6 +507,12 @@ func genFloater(t *rapid.T) floaterCase {
 	if gen.Int(t, 0, 4, "stretch?") == 0 {
 		c.Stretch = gen.Int(t, 1, 6, "stretch")
 		c.Eta = gen.F(t, 0.2, 1, "eta")
+		if c.Boundary == "square" {
+			// the square boundary is documented to flatten triangles onto its sides (an interior vertex whose
+			// neighbours all lie on one side lands on it as well); the stretch of a flattened triangle is
+			// undefined, so stretch minimisation is only exercised over strictly convex curves
+			c.Boundary = "circle"
+		}
 	}
 	return c
 }
@@ -987,8 +996,29 @@ func buildAtlas(c atlasCase, o *kit.Obs) (*atlas, error) {
 	a := &atlas{b: wrap(ts)}
 	if c.API == "auto" {
 		o.Labelf("resolution:%d", c.Resolution)
-		if guarded(func() { a.uv = model3d.BuildAutomaticUVMap(a.b.m, c.Resolution, false) }) {
+		var nan, cells bool
+		func() {
+			defer func() {
+				if p := recover(); p != nil {
+					if s, ok := p.(string); ok && s == "bounds are invalid" {
+						cells = true
+						return
+					}
+					panic(p)
+				}
+			}()
+			nan = guarded(func() { a.uv = model3d.BuildAutomaticUVMap(a.b.m, c.Resolution, false) })
+		}()
+		if nan {
 			return nil, solverVerdict(o, "BuildAutomaticUVMap")
+		}
+		if cells {
+			if kit.Excluded(tagCells) {
+				kit.CountExcluded(tagCells)
+				o.Label("excluded:" + tagCells)
+				return nil, nil
+			}
+			return nil, fmt.Errorf("BuildAutomaticUVMap(resolution %d) panicked with \"bounds are invalid\" on a manifold mesh of %d faces: a cell of its area-balanced quad tree is smaller than twice the border", c.Resolution, len(ts))
 		}
 		a.lo, a.hi = kit.V2{0, 0}, kit.V2{1, 1}
 		return a, a.b.unchanged()
@@ -1123,6 +1153,34 @@ func checkAtlas(c atlasCase, o *kit.Obs) error {
 			}
 		}
 		boxes = out
+		// MeshUVMap.ToBounds: "the 2D bounding box is rescaled and translated to a new min and max"
+		tlo, thi := kit.V2{a.lo[0] - 0.5*ext, a.lo[1] + 0.25*ext}, kit.V2{a.hi[0] + 0.125*ext, a.hi[1] + 2*ext}
+		tb := a.uv.ToBounds(m3.C2(tlo), m3.C2(thi))
+		if len(tb) != n {
+			return fmt.Errorf("ToBounds returned %d entries for %d faces", len(tb), n)
+		}
+		all := emptyBox()
+		for k := 0; k < n; k++ {
+			for j := 0; j < 3; j++ {
+				all.add(tris[k][j])
+			}
+		}
+		text := math.Max(thi[0]-tlo[0], thi[1]-tlo[1])
+		for k := 0; k < n; k++ {
+			got, ok := tb[a.b.faces[k]]
+			if !ok {
+				return fmt.Errorf("ToBounds dropped face %d", k)
+			}
+			for j := 0; j < 3; j++ {
+				for d := 0; d < 2; d++ {
+					want := tlo[d] + (tris[k][j][d]-all.lo[d])/(all.hi[d]-all.lo[d])*(thi[d]-tlo[d])
+					// closed form in doubles: 1e-12 of the target size
+					if g := m3.V2(got[j])[d]; !(math.Abs(g-want) <= 1e-12*text) {
+						return fmt.Errorf("ToBounds([%v, %v]): vertex %d of face %d has coordinate %d = %.15g, the rescaled bounding box puts it at %.15g", tlo, thi, j, k, d, g, want)
+					}
+				}
+			}
+		}
 		o.Label("charts:" + bucket(a.nCharts))
 		if a.nCharts >= 2 {
 			o.NonTrivial()
@@ -1324,10 +1382,10 @@ func TestProp(t *testing.T) {
 	go memoryGuard()
 	const bud = 30 * time.Second
 	kit.Run(t, "C18", rule,
-		kit.Clause[chartCase]{Name: "C18/charts", Quick: 4000, Thorough: 40000, Gen: genChart, Check: checkChart, Fresh: true, Budget: bud},
-		kit.Clause[splitCase]{Name: "C18/split", Quick: 2500, Thorough: 25000, Gen: genSplit, Check: checkSplit, Fresh: true, Budget: bud},
-		kit.Clause[floaterCase]{Name: "C18/floater", Quick: 5000, Thorough: 50000, Gen: genFloater, Check: checkFloater, Fresh: true, Budget: bud},
-		kit.Clause[atlasCase]{Name: "C18/atlas", Quick: 1500, Thorough: 15000, Gen: genAtlas, Check: checkAtlas, Fresh: true, Budget: bud},
-		kit.Clause[atlasCase]{Name: "C18/mapfn", Quick: 1500, Thorough: 15000, Gen: genAtlas, Check: checkMapFn, Fresh: true, Budget: bud},
+		kit.Clause[chartCase]{Name: "C18/charts", Quick: 8000, Thorough: 60000, Gen: genChart, Check: checkChart, Fresh: true, Budget: bud},
+		kit.Clause[splitCase]{Name: "C18/split", Quick: 5000, Thorough: 40000, Gen: genSplit, Check: checkSplit, Fresh: true, Budget: bud},
+		kit.Clause[floaterCase]{Name: "C18/floater", Quick: 12000, Thorough: 90000, Gen: genFloater, Check: checkFloater, Fresh: true, Budget: bud},
+		kit.Clause[atlasCase]{Name: "C18/atlas", Quick: 3000, Thorough: 20000, Gen: genAtlas, Check: checkAtlas, Fresh: true, Budget: bud},
+		kit.Clause[atlasCase]{Name: "C18/mapfn", Quick: 3000, Thorough: 20000, Gen: genAtlas, Check: checkMapFn, Fresh: true, Budget: bud},
 	)
 }
